@@ -327,7 +327,8 @@ func (smf *SMFailed) UnmarshalXML(d *xml.Decoder, start xml.StartElement) error 
 				err = d.DecodeElement(&xnwf, &tt)
 				smf.StreamErrorGroup = &xnwf
 			default:
-				return errors.New("error is unknown")
+				// Conditions not modelled here (XEP-0198 uses stanza error conditions such as item-not-found) are skipped
+				err = d.Skip()
 			}
 			if err != nil {
 				return err
